@@ -15,6 +15,10 @@ use tokio::{
 #[path = "tests/quorum_waiter_tests.rs"]
 pub mod quorum_waiter_tests;
 
+#[cfg(all(test, feature = "hotstuff_verif"))]
+#[path = "/verif/replay/mempool_quorum_waiter.rs"]
+mod verif_replay;
+
 /// Extra batch dissemination time for the f last nodes (in ms).
 const DISSEMINATION_DEADLINE: u64 = 500;
 /// Bounds the queue handling the extra dissemination.
